@@ -190,7 +190,7 @@ func runC01(r *Run) {
 	r.floor("R01.12", 10)
 	ruleCoroutineConformance(r, "R01.12")
 	r.floor("R01.9", 12)
-	for _, m := range []string{"Commit", "Rollback", "TransactionWriteRegister", "RATCommit", "RATRollback", "RATFlush", "InitRAT", "TransactionRATWrite", "commitRAT", "isSuperseded"} {
+	for _, m := range []string{"WriteRegister", "WriteMemory", "Commit", "Rollback", "TransactionWriteRegister", "RATCommit", "RATRollback", "RATFlush", "InitRAT", "TransactionRATWrite", "commitRAT", "isSuperseded"} {
 		conform(r, "R01.9", "risc", "Context", m, "risc_state", nil)
 	}
 	conform(r, "R01.9", "risc", "", "registerRead", "risc_state", nil)
@@ -392,6 +392,66 @@ func ruleRunnerStep(r *Run) {
 	})
 	r.check(!nilMem && feeds, "R01.3", "risc.(*Runner).Run:memory-argument", fd.Pos(), "the sequential reference reads the bytes at MemoryRead's addresses (%v) and passes them to Run (nil literal: %v)", feeds, nilMem)
 	r.check(returnEndsRun(info, fd.Body), "R01.3", "risc.(*Runner).Run:return-ends-run", fd.Pos(), "an execution with Return set ends the run (as in the twelve variants): ret in the middle of a program must not fall through to the next instruction")
+	// the architectural step of the reference itself, with its polarity: register write under (positive)
+	// RegisterChange, else memory write under (positive) MemoryChange; NextPc under PcChange, else pc+4;
+	// an error of the instruction ends the run with that error
+	step, nextPc, errOut := false, false, false
+	ast.Inspect(fd.Body, func(m ast.Node) bool {
+		is, ok := m.(*ast.IfStmt)
+		if !ok {
+			return true
+		}
+		switch c := ast.Unparen(is.Cond).(type) {
+		case *ast.SelectorExpr:
+			switch c.Sel.Name {
+			case "RegisterChange":
+				regWrite := w.reaches(info, is.Body, func(fn *types.Func) bool { return fn.Name() == "WriteRegister" })
+				memInThen := w.reaches(info, is.Body, func(fn *types.Func) bool { return fn.Name() == "WriteMemory" })
+				elseOK := false
+				if ei, ok := is.Else.(*ast.IfStmt); ok {
+					if s2, ok := ast.Unparen(ei.Cond).(*ast.SelectorExpr); ok && s2.Sel.Name == "MemoryChange" {
+						elseOK = w.reaches(info, ei.Body, func(fn *types.Func) bool { return fn.Name() == "WriteMemory" }) &&
+							!w.reaches(info, ei.Body, func(fn *types.Func) bool { return fn.Name() == "WriteRegister" })
+					}
+				}
+				if regWrite && !memInThen && elseOK {
+					step = true
+				}
+			case "PcChange":
+				thenOK, elseOK := false, false
+				if len(is.Body.List) == 1 {
+					if as, ok := is.Body.List[0].(*ast.AssignStmt); ok && as.Tok == token.ASSIGN && strings.HasSuffix(types.ExprString(as.Rhs[0]), ".NextPc") {
+						thenOK = true
+					}
+				}
+				if eb, ok := is.Else.(*ast.BlockStmt); ok && len(eb.List) == 1 {
+					if as, ok := eb.List[0].(*ast.AssignStmt); ok && as.Tok == token.ADD_ASSIGN {
+						if c4, ok := constInt64(info.Types[as.Rhs[0]]); ok && c4 == 4 {
+							elseOK = true
+						}
+					}
+				}
+				if thenOK && elseOK {
+					nextPc = true
+				}
+			}
+		case *ast.BinaryExpr:
+			// if err != nil { return err }
+			if c.Op == token.NEQ && info.Types[c.Y].IsNil() {
+				if id, ok := ast.Unparen(c.X).(*ast.Ident); ok && typeName(info.TypeOf(id)) == "error" && len(is.Body.List) == 1 {
+					if rs, ok := is.Body.List[0].(*ast.ReturnStmt); ok && len(rs.Results) == 1 {
+						if rid, ok := ast.Unparen(rs.Results[0]).(*ast.Ident); ok && info.Uses[rid] == info.Uses[id] {
+							errOut = true
+						}
+					}
+				}
+			}
+		}
+		return true
+	})
+	r.check(step, "R01.3", "risc.(*Runner).Run:step", fd.Pos(), "the sequential reference applies an execution as a register write under RegisterChange, else as a memory write under MemoryChange")
+	r.check(nextPc, "R01.3", "risc.(*Runner).Run:next-pc", fd.Pos(), "the sequential reference continues at NextPc when PcChange is set and at pc+4 otherwise")
+	r.check(errOut, "R01.3", "risc.(*Runner).Run:error", fd.Pos(), "the sequential reference ends the run with the instruction's error")
 }
 
 // returnEndsRun: the body tests the Return flag of an execution and leaves (return or break) when it is set.
